@@ -38,12 +38,12 @@ class P:
     def budget(self, tier):
         return 240 if tier == "quick" else 6000
 
-    def hist(self, g, rng, proto, tpls_by_addr):
+    def hist(self, g, rng, proto, tpls_by_addr, force=False):
         """history used after the load: data for the saved templates, a fresh announcement + data, an unknown id"""
         toks = []
         for a, ts in tpls_by_addr.items():
-            for t in ts[:2]:
-                if g.min_rec_len(t) > 4 and rng.random() < 0.8:
+            for t in (ts if force else ts[:2]):
+                if g.min_rec_len(t) > 4 and (force or rng.random() < 0.8):
                     toks += [hx(a), hx(g.enc_msg([g.enc_set(t.tid, g.rand_record(t)[0])]))]
                     if rng.random() < 0.6:
                         # the same template once more with what real exporters append: several records, then padding of 1..8 zero
@@ -171,11 +171,14 @@ class P:
             if cnt:
                 m_ = cnt[(self.doc_i // 3) % len(cnt)]
                 v_ = int(m_.group(2))
-                new = [v_ + 1, v_ + 7, max(0, v_ - 1), 0, 65535][(self.doc_i // 9) % 5]
+                variant = (self.doc_i // 9) % 5
+                lie = lambda v: [v + 1, v + 7, max(0, v - 1), 0, 65535][variant]
+                new = lie(v_)
                 text0 = text
-                text = text[:m_.start(2)] + str(new).encode() + text[m_.end(2):]
+                # the same lie in EVERY template header of the document (whichever template the later data uses, it is one that lies)
+                text = _re.sub(rb'"' + m_.group(1) + rb'":(\d+)', lambda mm: b'"' + m_.group(1) + b'":' + str(lie(int(mm.group(1)))).encode(), text)
                 if text != text0:
-                    tail = "D %s H %s %s" % (doctoks, self.hist(g, rng, proto, tpls), self.sweep(g, rng, proto))
+                    tail = "D %s H %s %s" % (doctoks, self.hist(g, rng, proto, tpls, force=True), self.sweep(g, rng, proto))
                     line0 = "cachedoc %s %s %s" % (proto, hx(text0), tail)
                     line = "cachedoc %s %s %s" % (proto, hx(text), tail)
                     self.saved[line0] = saved; self.saved[line] = saved
